@@ -197,7 +197,8 @@ ScRender(sc, ws, c0, pi, flow) ==
      allow |-> [k \in 1..h |-> [l |-> k, lo |-> 1, hi |-> (IF k <= nG THEN BL(full(k)) ELSE 0) + 1]],
      pos   |-> [k \in 1..nG |-> IF G[k].b THEN [l |-> k, f |-> 1, t |-> 1, bl |-> TRUE]
                                 ELSE [l |-> k, f |-> bi + 1, t |-> BL(full(k)) + (IF k = nG THEN 0 ELSE 1), bl |-> FALSE]],
-     reg   |-> sc.lead = 0 /\ sc.shape # "more1" /\ sc.tb = 0 /\ ~sc.hc /\ sc.step >= 2
+     \* `keep`: the number of trailing newline cells depends on the empty lines that follow the scalar
+     reg   |-> sc.lead = 0 /\ sc.shape # "more1" /\ sc.tb = 0 /\ ~sc.hc /\ sc.step >= 2 /\ sc.chomp # "keep"
                /\ ~(sc.style = "fold" /\ sc.shape = "blank1"),
      lastc |-> nG]
 
@@ -282,27 +283,38 @@ Min(a, b) == IF a <= b THEN a ELSE b
 RECURSIVE JoinT(_, _)
 JoinT(ws, i) == IF i > Len(ws) THEN "" ELSE (IF i = 1 THEN "" ELSE " ") \o ws[i].t \o JoinT(ws, i + 1)
 
-RECURSIVE RenderItems(_, _, _, _, _)
-RenderItems(items, i, ri, K, acc) ==
+\* dash: the first item carries the "- " of the list entry (FALSE when the entry starts with an anchor line)
+RECURSIVE RenderItems(_, _, _, _, _, _)
+RenderItems(items, i, ri, K, dash, acc) ==
   IF i > Len(items) THEN acc
-  ELSE LET r == RenderItem(items[i], ri, i = 1, K) IN
-       RenderItems(items, i + 1, ri, K + Len(r.lines),
+  ELSE LET r == RenderItem(items[i], ri, i = 1 /\ dash, K) IN
+       RenderItems(items, i + 1, ri, K + Len(r.lines), dash,
                    [lines |-> acc.lines \o r.lines, nodes |-> acc.nodes \o r.nodes, last |-> Max(acc.last, r.lastc)])
 
 NameItem(rule) == CHOOSE i \in 1..Len(rule.items) : rule.items[i].k \in {"alert", "record"}
 RuleType(rule) == IF rule.items[NameItem(rule)].k = "alert" THEN "alerting" ELSE "recording"
 RuleName(rule) == LET it == rule.items[NameItem(rule)] IN JoinT(Words(TextKind(it.k), it.sc.cls, it.k), 1)
 
-(* ExpectedLines of a rule = what parseRule accumulates: from the line of the first key to the last
+(* A rule of the list is written in full (optionally behind an anchor line `- &r<i>`), or as an alias
+   `- *r<k>` of an anchored earlier rule: unpackNodes / resolveMapAlias hand parseRule the nodes of
+   the anchored mapping, so the alias yields the same rule again - same values, positions and Lines.
+   ExpectedLines of a rule = what parseRule accumulates: from the line of the first key to the last
    line holding a character of any key or value.                                                   *)
+RuleDef == [items |-> <<>>, anchor |-> FALSE, alias |-> 0]
 RECURSIVE RenderRules(_, _, _, _, _)
 RenderRules(rules, i, ri, K, acc) ==
   IF i > Len(rules) THEN acc
-  ELSE LET r == RenderItems(rules[i].items, 1, ri, K, [lines |-> <<>>, nodes |-> <<>>, last |-> K]) IN
-       RenderRules(rules, i + 1, ri, K + Len(r.lines),
-                   [lines |-> acc.lines \o r.lines,
-                    rules |-> Append(acc.rules, [first |-> K, last |-> r.last, type |-> RuleType(rules[i]),
-                                                 name |-> RuleName(rules[i]), nodes |-> r.nodes])])
+  ELSE IF rules[i].alias > 0
+  THEN RenderRules(rules, i + 1, ri, K + 1,
+                   [lines |-> Append(acc.lines, Cat(FSp(ri), F("- *r" \o Digit(rules[i].alias)))),
+                    rules |-> Append(acc.rules, [acc.rules[rules[i].alias] EXCEPT !.alias = TRUE])])
+  ELSE LET a  == IF rules[i].anchor THEN <<Cat(FSp(ri), F("- &r" \o Digit(i)))>> ELSE <<>>
+           K1 == K + Len(a)
+           r  == RenderItems(rules[i].items, 1, ri, K1, ~rules[i].anchor, [lines |-> <<>>, nodes |-> <<>>, last |-> K1]) IN
+       RenderRules(rules, i + 1, ri, K1 + Len(r.lines),
+                   [lines |-> acc.lines \o a \o r.lines,
+                    rules |-> Append(acc.rules, [first |-> K1, last |-> r.last, type |-> RuleType(rules[i]),
+                                                 name |-> RuleName(rules[i]), nodes |-> r.nodes, alias |-> FALSE])])
 
 Filler(kind) == IF kind = "cmt" THEN F("# note") ELSE Empty
 
@@ -311,33 +323,45 @@ RenderBase(lay) ==
   IF lay.base = "list"
   THEN RenderRules(lay.rules, 1, 0, 1, [lines |-> <<>>, rules |-> <<>>])
   ELSE LET pre == [i \in 1..Len(lay.pre) |-> Filler(lay.pre[i])]
-           hdr == pre \o <<F("groups:"), Cat(FSp(lay.gi), F("- name: g1")), Cat(FSp(lay.gi + 2), F("rules:"))>>
+           \* ghdr: further keys of the group (interval, limit, query_offset) between its name and its rules
+           hdr == pre \o <<F("groups:"), Cat(FSp(lay.gi), F("- name: g1"))>>
+                      \o [i \in 1..Len(lay.ghdr) |-> Cat(FSp(lay.gi + 2), F(lay.ghdr[i].t))]
+                      \o <<Cat(FSp(lay.gi + 2), F("rules:"))>>
        IN RenderRules(lay.rules, 1, lay.gi + 2 + lay.rstep, Len(hdr) + 1, [lines |-> hdr, rules |-> <<>>])
 
 -----------------------------------------------------------------------------
 (* Wrappers: parent keys / sequence levels / siblings / documents / embedding                    *)
-LvDef == [seq |-> FALSE, key |-> "spec", step |-> 2, sibB |-> FALSE, sibA |-> FALSE]
+LvDef == [seq |-> FALSE, key |-> "spec", step |-> 2, sibB |-> FALSE, sibA |-> FALSE, sl |-> FALSE]
 WrNone == [levels |-> <<>>, embed |-> FALSE, docB |-> FALSE, docA |-> FALSE]
 
+\* a sibling key at column c (0-based indentation): a scalar, or (sl) a bare rule list of its own with one rule
+SibLines(c, dash, key, name, sl) ==
+  LET p0 == Cat(FSp(IF dash THEN c - 2 ELSE c), F(IF dash THEN "- " ELSE "")) IN
+  IF sl THEN <<Cat(p0, F(key \o ":")), Cat(FSp(c), F("- alert: " \o name)), Cat(FSp(c), F("  expr: up"))>>
+  ELSE <<Cat(p0, F(key \o ": 1"))>>
+
 RECURSIVE WrapAcc(_, _, _, _)
-\* returns [before, after, ind]: the lines in front, the lines behind, the indentation of the body
+\* returns [before, after, ind, nB, nA]: the lines in front, the lines behind, the indentation of the body,
+\* the number of sibling rule lists in front / behind
 WrapAcc(w, i, ind, acc) ==
   IF i > Len(w.levels) THEN [acc EXCEPT !.ind = ind]
   ELSE LET lv     == w.levels[i]
            keycol == ind + (IF lv.seq THEN 2 ELSE 0)
-           sb     == IF lv.sibB THEN <<Cat(FSp(ind), F(IF lv.seq THEN "- sb: 1" ELSE "sb: 1"))>> ELSE <<>>
+           sb     == IF lv.sibB THEN SibLines(keycol, lv.seq, "sb", "SibB", lv.sl) ELSE <<>>
            kl     == Cat3(FSp(IF lv.seq /\ lv.sibB THEN keycol ELSE ind),
                           F(IF lv.seq /\ ~lv.sibB THEN "- " ELSE ""),
-                          F(lv.key \o ":" \o (IF w.embed /\ i = Len(w.levels) THEN " |" ELSE "")))
-           sa     == IF lv.sibA THEN <<Cat(FSp(keycol), F("sa: 1"))>> ELSE <<>>
+                          \* `|+`: the embedded text keeps its trailing empty lines, so it is the unwrapped file byte for byte
+                          F(lv.key \o ":" \o (IF w.embed /\ i = Len(w.levels) THEN " |+" ELSE "")))
+           sa     == IF lv.sibA THEN SibLines(keycol, FALSE, "sa", "SibA", lv.sl) ELSE <<>>
        IN WrapAcc(w, i + 1, keycol + lv.step,
-                  [before |-> acc.before \o sb \o <<kl>>, after |-> sa \o acc.after, ind |-> 0])
+                  [before |-> acc.before \o sb \o <<kl>>, after |-> sa \o acc.after, ind |-> 0,
+                   nB |-> acc.nB + (IF lv.sibB /\ lv.sl THEN 1 ELSE 0), nA |-> acc.nA + (IF lv.sibA /\ lv.sl THEN 1 ELSE 0)])
 
 WrapParts(w) ==
-  LET a == WrapAcc(w, 1, 0, [before |-> <<>>, after |-> <<>>, ind |-> 0]) IN
+  LET a == WrapAcc(w, 1, 0, [before |-> <<>>, after |-> <<>>, ind |-> 0, nB |-> 0, nA |-> 0]) IN
   [before |-> (IF w.docB THEN <<F("x: 1"), F("---")>> ELSE <<>>) \o a.before,
    after  |-> a.after \o (IF w.docA THEN <<F("---"), F("y: 2")>> ELSE <<>>),
-   ind    |-> a.ind]
+   ind    |-> a.ind, nB |-> a.nB, nA |-> a.nA]
 
 ShiftRegs(rs, dL, dC, embed) ==
   [i \in DOMAIN rs |-> IF rs[i].lo = 1 /\ rs[i].hi = 1 /\ ~embed
@@ -364,7 +388,7 @@ Render(lay) ==
                                        ELSE Cat(FSp(dC), b.lines[i])]
   IN [lines |-> w.before \o body \o w.after,
       rules |-> [i \in DOMAIN b.rules |-> ShiftRule(b.rules[i], dL, dC, lay.wrap.embed)],
-      dLine |-> dL, dCol |-> dC,
+      dLine |-> dL, dCol |-> dC, nB |-> w.nB, nA |-> w.nA,
       baseLines |-> b.lines, baseRules |-> b.rules]
 
 LineT(ls) == [i \in DOMAIN ls |-> ls[i].t]
